@@ -21,6 +21,10 @@ def carrying_messages(rng):
     mid = 30
     yield 'StoryAppend', story_append(mid, [new('N1'), new('N2')]), 'N1'
     yield 'StoryInsert', story_insert(mid, 'B', [new('N1')]), 'N1'
+    # some carried stories are duplicates (skipped with a warning), the others must still arrive as copies
+    yield 'StoryInsert', story_insert(mid, 'B', [new('A'), new('N1')]), 'N1'
+    yield 'StoryInsert', story_insert(mid, 'B', [new('N1'), new('N1'), new('N2')]), 'N2'
+    yield 'EAStoryInsert', element_action(mid, 'INSERT', [ref('storyID', 'B')], [[new('N1'), new('C'), new('N2')]]), 'N2'
     yield 'StoryReplace', story_replace(mid, 'B', [new('N1'), new('N2')]), 'N2'
     yield 'EAStoryInsert', element_action(mid, 'INSERT', [ref('storyID', 'B')], [[new('N1')]]), 'N1'
     yield 'EAStoryReplace', element_action(mid, 'REPLACE', [ref('storyID', 'B')], [[new('N1')]]), 'N1'
@@ -82,7 +86,7 @@ def shares_nodes(m, ro):
 
 class Check:
     pid = 'C13'
-    rule = ('for each of the 13 payload-carrying classes x 4 running-order layouts: merge the message object into ro1; apply 6 later '
+    rule = ('for each of the 13 payload-carrying classes (inserts also with partly duplicate payloads) x 4 running-order layouts: merge the message object into ro1; apply 6 later '
             'edits to ro1 (item delete / insert / replace / roElementAction delete inside the carried story, roMetadataReplace, '
             'roDelete) checking str(message), everything the message reports through its public properties, and that no element it hands out is a node of the running order, after each; merge the same object again into a fresh ro2 and compare with merging a '
             'freshly parsed copy; edit ro2 and check ro1 is untouched; plus the static call-site extraction. distinct by (class, layout, step)')
